@@ -380,8 +380,8 @@ class List(list, base.Symbolic, pg_typing.CustomTyping):
 
   def seal(self, sealed: bool = True) -> 'List':
     """Seal or unseal current object from further modification."""
-    if self.is_sealed == sealed:
-      return self
+    # NOTE: the flag of a descendant may differ from the flag of this node (it
+    # can be set at the descendant), so the descendants are always visited.
     for elem in self.sym_values():
       if isinstance(elem, base.Symbolic):
         elem.seal(sealed)
